@@ -30,10 +30,10 @@ Theorem FLAGS_every_analyzer_flag_accounted :
 Proof. vm_compute. auto. Qed.
 Print Assumptions FLAGS_every_analyzer_flag_accounted.
 
-(* every numeric flag is checked by parseArgs before use, or is the recorded exception *)
+(* every numeric flag is checked by parseArgs before use *)
 Theorem FLAGS_int_flags_checked :
   forallb (int_flag_ok cli_validated_go_critic) cli_flag_table_go_critic = true
-  /\ mem "concurrency" cli_validated_go_critic = true.
+  /\ mem "concurrency" cli_validated_go_critic = true /\ mem "exitCode" cli_validated_go_critic = true.
 Proof. vm_compute. auto. Qed.
 Print Assumptions FLAGS_int_flags_checked.
 
